@@ -120,7 +120,9 @@ fn worker(a: &[String]) {
         profile: profile_name(),
         known,
         journal,
+        part: Some(part.clone()),
     };
+    let _ = std::fs::remove_file(&part);
     lacebox::install_redirect();
     let mut rep = Report::default();
     prop.run_worker(&ctx, &mut rep);
@@ -140,6 +142,7 @@ fn replay_cmd(id: &str, files: &[String]) {
         profile: profile_name(),
         known,
         journal: None,
+        part: None,
     };
     // results go to the real stdout, so keep a handle before redirecting
     let out_fd = unsafe { libc::dup(1) };
@@ -321,9 +324,29 @@ fn master(id: &str, tier: Tier) {
             }
             if infra.iter().any(|i| i.contains(&format!("worker {w} (profile {}) exceeded", bin.profile))) {
                 let _ = child.wait();
+                // what the worker had found before it hung was flushed to its part file
+                if let Some(rep) = std::fs::read(&part).ok().and_then(|b| serde_json::from_slice::<Report>(&b).ok()) {
+                    for f in &rep.failures {
+                        let path = save_replay(&scratch, id, f);
+                        violations.push((f.signature.clone(), format!("[profile {}] {}", f.profile, f.message), path));
+                    }
+                    total.merge(rep);
+                }
                 continue;
             }
             let status = child.wait();
+            if status.as_ref().ok().and_then(|s| s.code()) == Some(86) {
+                // the worker gave up on a case that never came back (see lacebox::fresh_thread)
+                infra.push(format!("worker {w} (profile {}) was stuck in one case (a blocked thread cannot be diagnosed from inside the process)", bin.profile));
+                if let Some(rep) = std::fs::read(&part).ok().and_then(|b| serde_json::from_slice::<Report>(&b).ok()) {
+                    for f in &rep.failures {
+                        let path = save_replay(&scratch, id, f);
+                        violations.push((f.signature.clone(), format!("[profile {}] {}", f.profile, f.message), path));
+                    }
+                    total.merge(rep);
+                }
+                continue;
+            }
             let ok = status.as_ref().map(|s| s.success()).unwrap_or(false);
             let parsed: Option<Report> = std::fs::read(&part).ok().and_then(|b| serde_json::from_slice(&b).ok());
             match (ok, parsed) {
